@@ -6,6 +6,7 @@ mod c04;
 mod c07;
 mod c10;
 mod c11;
+mod c16;
 mod c15;
 mod gen;
 mod pngbuild;
@@ -64,6 +65,7 @@ fn main() {
             "C07" => c07::replay(case),
             "C10" => c10::replay(case),
             "C11" => c11::replay(case),
+            "C16" => c16::replay(case),
             _ => "unknown-property".to_string(),
         };
         println!("{}", r);
@@ -76,6 +78,7 @@ fn main() {
         "C07" => c07::run(&a),
         "C10" => c10::run(&a),
         "C11" => c11::run(&a),
+        "C16" => c16::run(&a),
         _ => {
             eprintln!("unknown property {}", prop);
             std::process::exit(2);
